@@ -526,13 +526,7 @@ class SeqGene:
 def r5(repo, res):
     f = repo.func("sam::Sample._realign_indels")
     res.analysed(f)
-    loop = None
-    for n in walk_local(f):
-        if isinstance(n, ast.For) and "_indel_sites" in ast.unparse(n.iter):
-            loop = n
-    if loop is None:
-        res.err("C08.R5", "indel loop not found in _realign_indels")
-        return
+    loop = f
     G = "ACGTTGCAACGGATCCTA"
     lo = 500
     gene = SeqGene(G, lo)
@@ -544,13 +538,17 @@ def r5(repo, res):
         return Obj(generate_equivalents=lambda: [Obj(pos=pos, ref=ref, alt=alt)], ref=ref, alt=alt)
 
     me = Obj(_indel_sites=sites, gene=gene, profile=Obj(indelpost=False, min_mapq=10, min_quality=10), _indel_sites_eqs={}, _prefix="")
+    from sa.fold import Lifted
+
+    me.gene.chr = "1"
     try:
-        ev = Evaluator({"self": me, "rname": "1", "ref": None, "long_reads": False, "sam": None}, funcs={"Variant": Variant})
-        ev.locals["prev_indel"] = None
-        kind, val = ev.run([loop])
-    except (Unfoldable, Raised) as e:
-        res.err("C08.R5", f"_realign_indels loop outside folding language: {e}")
+        Lifted(f, funcs={"Variant": Variant, "pysam.FastaFile": lambda q: Obj(path=q)})(me, "tmpdir", None, "ref.fa")
+        kind, val = "return", None
+    except Unfoldable as e:
+        res.err("C08.R5", f"_realign_indels outside folding language: {e}")
         return
+    except Raised as e:
+        kind, val = "raise", e.kind
     if kind == "raise":
         res.ob("C08.R5", f, loop, False, expected="bridge folds", found=f"raises {val}", key="bridge")
         return
